@@ -885,8 +885,66 @@ Proof.
     apply XU1_skip; [apply NB|]. apply XU1_skip; [apply NB|]. apply XU1_eof. exact NBe.
 Qed.
 
+(* ---------- aliases and conversion: try_catch_return_false< list_must< one<'a'>, one<','> > > ----------
+   list_must< R, S > = seq< R, star< S, must< R > > >:
+   0: try_catch_return_false< 1 >   1: seq< 2, 3 >   2: one<'a'>   3: star< 4 >   4: seq< 5, 6 >   5: one<','>   6: must< 2 >
+   star_must< one<'a'>, one<','> > = star< if_must< false, one<'a'>, one<','> > >:   7: star< 8 >   8: if_must< false, 2, 9 >   9: must< 5 > *)
+Definition al_G : grammar :=
+  [ mknode (HTryCatchFalse FParse) [1%nat] false; mknode HSeq [2; 3]%nat true; mknode (HOne true PkChar [97%Z]) [] true;
+    mknode HStarPartial [4%nat] true; mknode HSeq [5; 6]%nat true; mknode (HOne true PkChar [44%Z]) [] true; mknode HMust [2%nat] false;
+    mknode HStarPartial [8%nat] true; mknode (HIfMust false) [2; 9]%nat true; mknode HMust [5%nat] false ].
+Lemma al_G_wf : table_wf al_G.
+Proof. intros r nd H. do 10 (destruct r as [|r]; [simpl in H; inversion H; subst; exact I|]). destruct r; discriminate. Qed.
+Lemma al_G_cm2 : cm2_table al_G.
+Proof.
+  assert (A : forall h z, h = HOne true PkChar [Z.of_N z] -> z < 128 -> exists a, atom_den h a).
+  { intros h z -> Hz. exists (SOne [z]). split; [reflexivity|]. unfold den_node. simpl. rewrite Z.eqb_refl. simpl.
+    apply N.ltb_lt in Hz. rewrite Hz. reflexivity. }
+  intros r nd H. destruct r as [|[|[|[|[|[|[|[|[|[|r]]]]]]]]]]; simpl in H; try (destruct r; discriminate H); inversion H; subst nd; unfold cm2_node; simpl.
+  - split; [repeat constructor | eauto].
+  - split; [repeat constructor | discriminate].
+  - split; [constructor|]. split; [reflexivity|]. apply (A _ 97); reflexivity.
+  - split; [repeat constructor | eauto].
+  - split; [repeat constructor | discriminate].
+  - split; [constructor|]. split; [reflexivity|]. apply (A _ 44); reflexivity.
+  - split; [repeat constructor | eauto].
+  - split; [repeat constructor | eauto].
+  - split; [repeat constructor|]. left. exists 2%nat, 9%nat. split; [reflexivity|].
+    eexists. split; [reflexivity|]. left. split; [reflexivity | eauto].
+  - split; [repeat constructor | eauto].
+Qed.
+Lemma ex_C_void : void_cfg RaiseSound.ex_C.
+Proof. split; [intros; exact I|]. split; [intros; eexists; reflexivity | intros; reflexivity]. Qed.
+(* "a,b": the must< one<'a'> > after the separator raises (rule 2, byte 2); try_catch_return_false turns it into a
+   local failure; star_must on "a,a;" raises rule 5 (the ',' that must follow) at byte 3.  The formalism's
+   verdicts are OBTAINED from the engine runs through the soundness theorem. *)
+Example alias_example :
+  (exists s0, XPeg al_G 1%nat [97; 44; 98] (RRaise 2%nat s0)) /\
+  XPeg al_G 0%nat [97; 44; 98] RFail /\
+  (exists s0, XPeg al_G 7%nat [97; 44; 97; 59] (RRaise 5%nat s0)).
+Proof.
+  assert (B : forall l, Forall (fun b => b < 128) l -> bytes_ok l).
+  { intros l H. eapply Forall_impl; [|exact H]. intros b Hb. simpl in Hb. lia. }
+  split; [|split].
+  - assert (E : exists c' evs, eval al_G RaiseSound.ex_C 30 (mkdyn true true 0 0 0) 1%nat (mkcur [97; 44; 98] pos0)
+                 = Res (Exc (EParse (WRule 2%nat) (mkpos 2 1 3))) c' evs) by (eexists; eexists; vm_compute; reflexivity).
+    destruct E as [c' [evs E]].
+    pose proof (raise_sound2_pos al_G _ al_G_wf ex_C_void al_G_cm2 _ _ _ _ _ _ _ ltac:(simpl; lia) ltac:(apply B; repeat constructor) E) as S.
+    destruct S as [w [p [s0 [He [HX _]]]]]. inversion He; subst. exists s0. exact HX.
+  - assert (E : exists c' evs, eval al_G RaiseSound.ex_C 30 (mkdyn true true 0 0 0) 0%nat (mkcur [97; 44; 98] pos0)
+                 = Res Fail c' evs) by (eexists; eexists; vm_compute; reflexivity).
+    destruct E as [c' [evs E]].
+    exact (raise_sound2_pos al_G _ al_G_wf ex_C_void al_G_cm2 _ _ _ _ _ _ _ ltac:(simpl; lia) ltac:(apply B; repeat constructor) E).
+  - assert (E : exists c' evs, eval al_G RaiseSound.ex_C 30 (mkdyn true true 0 0 0) 7%nat (mkcur [97; 44; 97; 59] pos0)
+                 = Res (Exc (EParse (WRule 5%nat) (mkpos 3 1 4))) c' evs) by (eexists; eexists; vm_compute; reflexivity).
+    destruct E as [c' [evs E]].
+    pose proof (raise_sound2_pos al_G _ al_G_wf ex_C_void al_G_cm2 _ _ _ _ _ _ _ ltac:(simpl; lia) ltac:(apply B; repeat constructor) E) as S.
+    destruct S as [w [p [s0 [He [HX _]]]]]. inversion He; subst. exists s0. exact HX.
+Qed.
+
 Print Assumptions raise_complete2.
 Print Assumptions identity2.
 Print Assumptions raise_complete.
 Print Assumptions identity.
 Print Assumptions identity2_example.
+Print Assumptions alias_example.
